@@ -185,6 +185,7 @@ void
 _dispatch_sema4_signal(_dispatch_sema4_t *sema, long count)
 {
 	do {
+		DISPATCH_VERIF_NOTE(DV_NOTE_SEM_POST, sema, count, 0);
 		int ret = sem_post(sema);
 		DISPATCH_SEMAPHORE_VERIFY_RET(ret);
 	} while (--count);
@@ -194,9 +195,11 @@ void
 _dispatch_sema4_wait(_dispatch_sema4_t *sema)
 {
 	int ret = 0;
+	DISPATCH_VERIF_NOTE(DV_NOTE_SEM_WAIT, sema, 0, 0);
 	do {
 		ret = sem_wait(sema);
 	} while (ret == -1 && errno == EINTR);
+	DISPATCH_VERIF_NOTE(DV_NOTE_SEM_WAIT_RET, sema, 0, ret);
 	DISPATCH_SEMAPHORE_VERIFY_RET(ret);
 }
 
@@ -213,6 +216,8 @@ _dispatch_sema4_timedwait(_dispatch_sema4_t *sema, dispatch_time_t timeout)
 		ret = sem_timedwait(sema, &_timeout);
 	} while (unlikely(ret == -1 && errno == EINTR));
 
+	DISPATCH_VERIF_NOTE(DV_NOTE_SEM_TIMEDWAIT_RET, sema, timeout,
+			ret == -1 && errno == ETIMEDOUT);
 	if (ret == -1 && errno == ETIMEDOUT) {
 		return true;
 	}
@@ -443,12 +448,20 @@ static int
 _dispatch_futex_wait(uint32_t *uaddr, uint32_t val,
 		const struct timespec *timeout, int opflags)
 {
+#if DISPATCH_VERIF
+	DISPATCH_VERIF_NOTE(DV_NOTE_FUTEX_WAIT, uaddr, val, timeout != NULL);
+	int _dv_rc = _futex_blocking_op(uaddr, FUTEX_WAIT, val, timeout, opflags);
+	DISPATCH_VERIF_NOTE(DV_NOTE_FUTEX_WAIT_RET, uaddr, val, _dv_rc);
+	return _dv_rc;
+#else
 	return _futex_blocking_op(uaddr, FUTEX_WAIT, val, timeout, opflags);
+#endif
 }
 
 static void
 _dispatch_futex_wake(uint32_t *uaddr, int wake, int opflags)
 {
+	DISPATCH_VERIF_NOTE(DV_NOTE_FUTEX_WAKE, uaddr, wake, 0);
 	int rc = _dispatch_futex(uaddr, FUTEX_WAKE, (uint32_t)wake, NULL, NULL, 0,
 			opflags);
 	if (rc >= 0 || errno == ENOENT) return;
